@@ -410,7 +410,17 @@ def gen_site_source(rng, ctx, edge):
             ts = [start]
             for _ in range(k - 1):
                 ts.append(ts[-1] + timedelta(days=rng.randrange(1, 900), seconds=rng.choice([0, 0, 7200])))
-            return [(ts[i], ts[i + 1] if i + 1 < k else None) for i in range(k)]
+            out_ = []
+            for i in range(k):
+                end_ = ts[i + 1] if i + 1 < k else None
+                if end_ is not None and rng.random() < 0.4:
+                    # the equipment is removed before the next one is installed: a gap in this history; period starts of the
+                    # other histories may fall into it (nothing is installed then: half-open lookup finds nothing)
+                    span_ = (end_ - ts[i]).total_seconds()
+                    end_ = ts[i] + timedelta(seconds=max(1, int(span_ * rng.choice([0.1, 0.5, 0.9]))))
+                    ctx.count("site:history_gap")
+                out_.append((ts[i], end_))
+            return out_
 
         serial_hi = 22 if edge == "serial22" else 20
         ants = []
@@ -513,6 +523,17 @@ def ident_digest(si):
 def at(hist, date):
     for h in hist:
         if h["start_time"] <= date and (h["end_time"] is None or date < h["end_time"]):
+            return h
+    return None
+
+
+def at_or_next(hist, date):
+    """gipsyx_site_info._get_antenna / _get_eccentricity: the period containing the date, or the next one when the date lies
+    before a period (in a gap or before the first installation)"""
+    for h in sorted(hist, key=lambda h_: h_["start_time"]):
+        if date < h["start_time"]:
+            return h
+        if h["end_time"] is None or date < h["end_time"]:
             return h
     return None
 
@@ -983,7 +1004,7 @@ def run_gamit_gipsyx(ctx, t, acc, k, names, sd, truth, src_path, edge):
                 rows.append(("gx_id", [v_s(st.upper()), v_s(dom if dom else "UNKNOWN"), v_s(name or ""), v_s(country or "")], dict(station=st)))
                 dates = sorted({h["start_time"] for h in tr["ants"]} | {h["start_time"] for h in tr["eccs"]})
                 for d in dates:
-                    an, ec = at(tr["ants"], d), at(tr["eccs"], d)
+                    an, ec = at_or_next(tr["ants"], d), at_or_next(tr["eccs"], d)
                     rows.append(("gx_ant", [v_s(st.upper()), v_s(d.strftime("%Y-%m-%d %H:%M:%S")), v_s(an["antenna_type"]),
                                             v_s(an["radome_type"] or "NONE"), v_f(ec["vector_3"]), v_f(ec["vector_2"]), v_f(ec["vector_1"]),
                                             v_s(f"  # {an['serial_number']}")],
